@@ -53,7 +53,7 @@ _mk('UserObject', 'object')          # opaque user object (context, tracer, ...)
 _mk('UserCallable', 'object')        # abstract callable (user method, middleware, handler, transport)
 # kinds of abstract user callables / objects; their assumed behaviour is stated in contracts/oracles.py
 for _n in ('UserMethod', 'UserMiddleware', 'UserErrorHandler', 'UserTransport', 'UserJitter', 'UserCallback',
-           'UserExcludeFn', 'UserIdGen', 'UserLoader', 'UserDumper', 'UserValidator', 'UserStatusFn', 'UserMock'):
+           'UserExcludeFn', 'UserIdGen', 'UserLoader', 'UserDumper', 'UserValidator', 'UserStatusFn', 'UserMock', 'UserMockCallback'):
     _mk(_n, 'UserCallable')
 for _n in ('UserTracer', 'UserContext', 'UserView', 'UserIdIter', 'ExtHttpRequest', 'ExtHttpResponse', 'ExtWsgiEnviron',
            'UserSchemaExtractor', 'UserMockModule'):
